@@ -84,7 +84,7 @@ var properties = map[string]*propSpec{
 			{Test: "TestC02_Reduced", Quick: 1, Thorough: 1},
 			{Test: "FuzzParse", Fuzz: "FuzzParse", FuzzSeconds: 150, ThoroughOnly: true},
 		},
-		Assumptions: assume("'bounded time' is decided as: no case exceeds the 20 s hang detector", "process deaths (fatal stack overflow) are attributed through a per-shard journal and confirmed by replay in a fresh process"),
+		Assumptions: assume("'bounded time' is decided as: no case exceeds the 30 s hang detector", "process deaths (fatal stack overflow) are attributed through a per-shard journal and confirmed by replay in a fresh process"),
 		Floors: []floor{
 			{Check: "TestC02_Total", Class: "outcome:accepted", Min: 0.01},
 			{Check: "TestC02_Total", Class: "outcome:ErrorInvalidSyntax", Min: 0.01},
@@ -100,7 +100,7 @@ var properties = map[string]*propSpec{
 			{Test: "TestC03_Reduced", Quick: 1, Thorough: 1},
 			{Test: "FuzzRetrieve", Fuzz: "FuzzRetrieve", FuzzSeconds: 150, ThoroughOnly: true},
 		},
-		Assumptions: assume(specAssumption, "'bounded time' is decided as: no case exceeds the 20 s hang detector"),
+		Assumptions: assume(specAssumption, "'bounded time' is decided as: no case exceeds the 30 s hang detector"),
 		Floors: []floor{
 			{Check: "TestC03_Total", Class: "outcome:values", Min: 0.03},
 			{Check: "TestC03_Total", Class: "outcome:ErrorMemberNotExist", Min: 0.03},
@@ -291,12 +291,14 @@ var properties = map[string]*propSpec{
 		Checks: []checkSpec{
 			{Test: "TestC01_Spec", Quick: 40000, Thorough: 400000, Rapid: true},
 			{Test: "TestC01_Mutated", Quick: 25000, Thorough: 250000, Rapid: true, Shards: 8},
+			{Test: "TestC01_SharedParsed", Quick: 150, Thorough: 3000, Rapid: true, Race: true, Flaky: true, Shards: 6},
 			{Test: "FuzzSpec", Fuzz: "FuzzSpec", FuzzSeconds: 150, ThoroughOnly: true},
 		},
 		Assumptions: assume(specAssumption),
 		Floors: []floor{
 			{Check: "TestC01_Spec", Class: "nontrivial:>=2results", Min: 0.06},
 			{Check: "TestC01_Mutated", Class: "nontrivial", Min: 0.05},
+			{Check: "TestC01_SharedParsed", Class: "nontrivial", Min: 0.1},
 		},
 	},
 }
